@@ -161,6 +161,11 @@ impl ShortFileName {
         if idx == 0 {
             return Err(FilenameError::FilenameEmpty);
         }
+        // A first byte of 0xE5 marks a deleted entry, so a name that starts
+        // with it is stored with 0x05 there instead.
+        if sfn.contents[0] == 0xE5 {
+            sfn.contents[0] = 0x05;
+        }
         Ok(sfn)
     }
 
@@ -191,6 +196,8 @@ impl core::fmt::Display for ShortFileName {
     fn fmt(&self, f: &mut core::fmt::Formatter) -> core::fmt::Result {
         let mut printed = 0;
         for (i, &c) in self.contents.iter().enumerate() {
+            // 0x05 in the first byte stands for 0xE5 (see `create_from_str`)
+            let c = if i == 0 && c == 0x05 { 0xE5 } else { c };
             if c != b' ' {
                 if i == Self::BASE_LEN {
                     write!(f, ".")?;
